@@ -155,6 +155,12 @@ pub fn make_file(z: &ZoneSpec, version: u8, rng: &mut Rng) -> Option<Made> {
     if z.types.iter().any(|t| t.desig.is_none()) {
         classes.push("empty_designation");
     }
+    if b.transitions.iter().any(|t| t.1 >= 128) {
+        classes.push("file_with_transition_to_type_index_128_or_more");
+    }
+    if b.types.len() == 256 {
+        classes.push("file_with_256_types");
+    }
     // unreferenced filler strings before / after the referenced designations: indices are single octets, the
     // table itself may be longer than 256 octets and a designation may start at <= 255 and end after it
     if rng.chance(1, 4) {
@@ -439,6 +445,8 @@ pub fn run(ctx: &Ctx) -> Report {
         "isstd_only",
         "isstd_and_isut",
         "overlapping_designations",
+        "file_with_transition_to_type_index_128_or_more",
+        "file_with_256_types",
         "designation_table_longer_than_256",
         "designation_ends_after_octet_255",
         "empty_designation",
@@ -493,6 +501,26 @@ pub fn run(ctx: &Ctx) -> Report {
                     z.rule = None;
                 }
             }
+        }
+        if i % 11 == 3 {
+            // wide type table: type indices are single octets, 256 types are possible; transitions retargeted to
+            // indices >= 128 (what a signed octet would get wrong). The last transition keeps its type (rule junction).
+            let want = *rng.pick(&[127usize, 128, 129, 200, 255, 256]);
+            let pool = ["AAA", "BBBB", "CCCCC", "DDDDDD", "EEEEEEE", "FFF"];
+            while z.types.len() < want {
+                let k = z.types.len();
+                z.types.push(crate::model::rule::TypeSpec { off: -40_000 + 313 * k as i32, dst: k % 3 == 0, desig: if k % 17 == 0 { None } else { Some(pool[k % pool.len()].to_string()) } });
+            }
+            let nt = z.transitions.len();
+            for (j, t) in z.transitions.iter_mut().enumerate() {
+                if j + 1 < nt && j % 2 == 0 {
+                    t.1 = 128 + (t.0.unsigned_abs() as usize + j) % (want - 128).max(1);
+                    if t.1 >= want {
+                        t.1 = want - 1;
+                    }
+                }
+            }
+            l.class(if want == 256 { "type_table_of_256" } else { "type_table_wide" });
         }
         let mut n = 0;
         for version in [0u8, b'2', b'3'] {
